@@ -659,6 +659,7 @@ func (h *H) txCases() {
 	}
 	params.PublicDPOSHeight = 1000
 
+	h.arbiterSignatureCases(mock)
 	h.crossChainV0Cases(params, chain)
 	h.returnSideChainDepositCases(params, st)
 
